@@ -36,6 +36,7 @@ OBLIGATIONS = [
     "Grog.C10.stale_never_blocks",
     "Grog.C10.stale_never_blocks_all_dead",
     "Grog.C10.waiter_proceeds",
+    "Grog.C10.clean_without_lock_witness",
     "Grog.C10.mutex_witness_empty",
     "Grog.C10.mutex_witness_stale",
 ]
@@ -343,6 +344,8 @@ def run(ctx):
         ctx.sample({"n": rec["n"], "pre": rec["pre"], "events": rec["events"], "final": rec["obs"][-1], "progress": rec["liveness"]})
     cli_smoke(ctx)
     cli_killed_while_command_runs(ctx)
+    cli_commands(ctx)
+    cli_run_minimal(ctx)
     ctx.violations.sort(key=lambda v: not v[1])      # violations with a concrete failing input first
 
 
@@ -395,6 +398,178 @@ def cli_smoke(ctx):
     if not ok:
         ctx.violation("a grog build started after the previous one was killed (SIGKILL) did not complete",
                       {"kind": "oracle", "oracle": "CLI: stale lock never blocks", "output": out[-1500:]}, signature="cli:stale-lock-blocks")
+
+
+CLI_SCENARIOS = [("build", "test"), ("test", "build"), ("build", "run"), ("run", "build"), ("test", "run"), ("run", "test"), ("build", "build2"),
+                 ("build", "test", "run"), ("run", "test", "build"), ("test", "run", "build2"),
+                 ("build", "clean", "build2"), ("test", "clean", "build"), ("run", "clean", "test"), ("build", "clean", "clean", "test")]
+CLI_ARGV = {"build": ["build", "//:b"], "build2": ["build", "//:b2"], "test": ["test", "//:unit_test"], "run": ["run", "//:app"], "clean": ["clean"]}
+
+
+def cli_scenario(grog, base, idx, kinds):
+    """Start the given grog commands on ONE workspace, each once the previous one is past lock acquisition (its target command has started)
+    or has had 0.4 s to get there; every child runs with GOGC=1 and its target commands print megabytes, so that a lock that is only
+    kept alive by an unreachable variable is garbage-collected mid-build. -> record with the B/E trace of the target commands."""
+    import time
+    d = os.path.join(base, f"s{idx}")
+    ws, root = os.path.join(d, "ws"), os.path.join(d, "root")
+    os.makedirs(ws); os.makedirs(root); os.makedirs(os.path.join(d, "home"))
+    trace = os.path.join(d, "trace")
+    open(trace, "w").close()
+    open(os.path.join(ws, "grog.toml"), "w").write("")
+    noise = "i=0; while [ $i -lt 40 ]; do head -c 100000 /dev/zero | tr '\\0' x; echo; i=$((i+1)); sleep 0.015; done"
+
+    def cmd(name, extra=""):
+        return f"echo B {name} >> {trace}; {noise}; {extra}echo E {name} >> {trace}"
+    json.dump({"targets": [
+        {"name": "b", "command": cmd("b"), "tags": ["no-cache"]},
+        {"name": "b2", "command": cmd("b2"), "tags": ["no-cache"]},
+        {"name": "unit_test", "command": cmd("unit_test"), "tags": ["no-cache"]},
+        {"name": "app", "command": cmd("app", "printf '#!/bin/sh\\necho ran\\n' > app.sh; chmod +x app.sh; "), "bin_output": "app.sh", "tags": ["no-cache"]},
+    ]}, open(os.path.join(ws, "BUILD.json"), "w"))
+    env = dict(os.environ, GROG_ROOT=root, HOME=os.path.join(d, "home"), GOGC="1")
+    procs = []
+    for k, kind in enumerate(kinds):
+        before = os.path.getsize(trace)
+        p = subprocess.Popen([grog] + CLI_ARGV[kind], cwd=ws, env=env, stdout=subprocess.PIPE, stderr=subprocess.STDOUT)
+        procs.append(p)
+        t0 = time.time()
+        # first command: wait until its target command runs (it holds the lock); later ones: give them 0.4 s
+        limit = 20 if k == 0 and kind != "clean" else 0.4
+        while time.time() - t0 < limit:
+            if kind == "clean":
+                if p.poll() is not None:
+                    break
+            elif os.path.getsize(trace) > before:
+                break
+            time.sleep(0.02)
+    outs, codes = [], []
+    for p in procs:
+        try:
+            o = p.communicate(timeout=90)[0].decode(errors="replace")
+        except subprocess.TimeoutExpired:
+            p.kill()
+            o = "TIMEOUT " + p.communicate()[0].decode(errors="replace")
+        outs.append(o[-600:]); codes.append(p.returncode)
+    toks = [l.split() for l in open(trace).read().splitlines() if l.strip()]
+    depth = mx = 0
+    for t in toks:
+        depth += 1 if t[0] == "B" else -1
+        mx = max(mx, depth)
+    shutil.rmtree(d, ignore_errors=True)
+    return {"commands": [" ".join(["grog"] + CLI_ARGV[k]) for k in kinds], "kinds": list(kinds), "trace": [" ".join(t) for t in toks],
+            "max_overlap": mx, "exit_codes": codes, "outputs": outs}
+
+
+def cli_commands(ctx):
+    """every grog command that builds (`build`, `test`, `run`) and `clean` as an interferer, pairs and triples in both orders on one
+    workspace: the target commands of different grog processes must never overlap and no command may fail because of another."""
+    from concurrent.futures import ThreadPoolExecutor
+    grog = ctx.grog_binary()
+    if not grog:
+        return
+    base = ctx.scratch("cli3")
+    with ThreadPoolExecutor(max_workers=4) as ex:
+        recs = list(ex.map(lambda j: cli_scenario(grog, base, j[0], j[1]), enumerate(CLI_SCENARIOS)))
+    summary = []
+    for rec in recs:
+        ctx.coverage["evaluations"] += 1
+        summary.append({"commands": rec["kinds"], "max_overlap": rec["max_overlap"], "exit_codes": rec["exit_codes"]})
+        n_build = sum(1 for k in rec["kinds"] if k != "clean")
+        started = sum(1 for t in rec["trace"] if t.startswith("B "))
+        if rec["max_overlap"] > 1:
+            kinds = sorted(set(k.rstrip("2") for k in rec["kinds"]))
+            ctx.violation("target commands of different grog processes ran at the same time on one workspace: " + " | ".join(rec["commands"]),
+                          {"kind": "oracle", "oracle": "CLI: commands that build serialise on the workspace lock (GOGC=1, output-heavy commands)", **rec},
+                          signature="cli:overlap:" + "+".join(kinds))
+        elif any(c != 0 for c in rec["exit_codes"]) or started != n_build:
+            ctx.violation("a grog command failed (or did not run its target) only because another grog command ran on the same workspace: "
+                          + " | ".join(rec["commands"]) + f" -> exit codes {rec['exit_codes']}",
+                          {"kind": "oracle", "oracle": "CLI: concurrent commands do not break each other", **rec},
+                          signature="cli:concurrent-command-fails:" + "+".join(sorted(set(k.rstrip("2") for k in rec["kinds"]))))
+    ctx.coverage.setdefault("cli_smoke", {})["command_mixes"] = summary
+
+
+def cli_run_minimal(ctx):
+    """`grog run` with load_outputs=minimal restores the outputs of the run target's dependencies into the workspace after its build. That is
+    build work too: it must happen under the workspace lock. The controller plays a contender that follows the lock protocol (open, flock,
+    re-check) and watches the workspace while it holds the lock."""
+    import fcntl, time
+    grog = ctx.grog_binary()
+    if not grog:
+        return
+    d = ctx.scratch("cli4")
+    ws, root = os.path.join(d, "ws"), os.path.join(d, "root")
+    os.makedirs(ws); os.makedirs(root)
+    open(os.path.join(ws, "grog.toml"), "w").write("")
+    json.dump({"targets": [
+        {"name": "dep", "command": "mkdir -p out; i=0; while [ $i -lt 1500 ]; do echo $i > out/f$i; i=$((i+1)); done", "outputs": ["dir::out"]},
+        {"name": "app", "command": "printf '#!/bin/sh\\necho ran\\n' > app.sh; chmod +x app.sh", "dependencies": [":dep"], "bin_output": "app.sh"}]},
+        open(os.path.join(ws, "BUILD.json"), "w"))
+    env = dict(os.environ, GROG_ROOT=root, HOME=ctx.scratch("cli4/home"))
+    p = subprocess.run([grog, "build", "//:app"], cwd=ws, env=env, capture_output=True, text=True, timeout=120)
+    res = {"first_build_exit": p.returncode}
+    ctx.coverage.setdefault("cli_smoke", {})["run_minimal"] = res
+    if p.returncode != 0:
+        ctx.notes.append("cli scenario 'run with load_outputs=minimal' inconclusive: the preparing build failed: " + (p.stdout + p.stderr)[-300:])
+        return
+    shutil.rmtree(os.path.join(ws, "out"), ignore_errors=True)
+    lockfile = os.path.join(ws_lock_dir(root, ws), "lockfile")
+    out_dir = os.path.join(ws, "out")
+
+    def count():
+        try:
+            return len(os.listdir(out_dir))
+        except OSError:
+            return 0
+    r = subprocess.Popen([grog, "run", "//:app", "--load-outputs=minimal"], cwd=ws, env=env, stdout=subprocess.PIPE, stderr=subprocess.STDOUT)
+    held = grown = 0
+    observations = []
+    t0 = time.time()
+    while r.poll() is None and time.time() - t0 < 90:
+        try:
+            fd = os.open(lockfile, os.O_RDWR | os.O_CREAT, 0o644)
+        except OSError:
+            time.sleep(0.01)
+            continue
+        try:
+            try:
+                fcntl.flock(fd, fcntl.LOCK_EX | fcntl.LOCK_NB)
+            except OSError:
+                time.sleep(0.01)
+                continue
+            try:
+                same = os.fstat(fd).st_ino == os.stat(lockfile).st_ino
+            except OSError:
+                same = False
+            if not same:
+                continue
+            # the controller is now past lock acquisition
+            held += 1
+            c1 = count(); time.sleep(0.05); c2 = count()
+            if c2 != c1:
+                grown += 1
+                if len(observations) < 5:
+                    observations.append({"t": round(time.time() - t0, 2), "files_in_out_before": c1, "after_50ms": c2})
+            try:
+                os.unlink(lockfile)
+            except OSError:
+                pass
+        finally:
+            os.close(fd)
+        time.sleep(0.01)
+    try:
+        out = r.communicate(timeout=30)[0].decode(errors="replace")
+    except subprocess.TimeoutExpired:
+        r.kill(); out = "TIMEOUT"
+    res.update({"run_exit": r.returncode, "times_controller_held_lock": held, "times_workspace_changed_while_held": grown, "files_restored": count()})
+    if grown:
+        ctx.violation("grog run --load-outputs=minimal writes the outputs of the run target's dependencies into the workspace while another process "
+                      "holds the workspace lock (the lock is released after the build and not taken again for loading)",
+                      {"kind": "oracle", "oracle": "CLI: the workspace is only written under the workspace lock",
+                       "scenario": ["grog build //:app   (dep has a directory output of 1500 files)", "rm -rf out", "grog run //:app --load-outputs=minimal",
+                                    "meanwhile a contender takes the workspace lock by the protocol (open, flock, re-check) and lists out/ twice, 50 ms apart"],
+                       "observations": observations, "output_of_run": out[-800:]}, signature="cli:run-loads-dependency-outputs-outside-lock")
 
 
 def cli_killed_while_command_runs(ctx):
